@@ -1,4 +1,4 @@
-from .core import (fresh_int, fresh_real, fresh_bool, const_int, choose, choose_from, assume, check, fail, note, info,
+from .core import (fresh_int, fresh_real, fresh_bool, const_int, choose, choose_from, assume, check, check_all, fail, note, info,
                    And, Or, Not, Implies, Iff, SymInt, SymReal, SymBool, PathAbort, EngineError, is_native, is_sym,
                    DAY_US)
 from .xdt import dt, XDateTime, XTimeDelta
